@@ -142,7 +142,9 @@ impl CpcUnion {
         match &self.state {
             UnionState::Accumulator(sketch) => {
                 if sketch.is_empty() {
-                    CpcSketch::with_seed(self.lg_k, self.seed)
+                    let mut empty = CpcSketch::with_seed(self.lg_k, self.seed);
+                    empty.merge_flag = true;
+                    empty
                 } else {
                     let mut sketch = sketch.clone();
                     assert_eq!(sketch.flavor(), Flavor::Sparse);
